@@ -308,9 +308,12 @@ class CFG:
             elif n.kind == "stmt" and isinstance(x, ast.AnnAssign) and x.value is not None and isinstance(x.target, ast.Name):
                 out[x.target.id] = x
             elif n.kind == "stmt" and isinstance(x, ast.AugAssign):
-                for y in ast.walk(x.target):
-                    if isinstance(y, ast.Name):
-                        out[y.id] = "opaque"
+                if isinstance(x.target, ast.Name):
+                    out[x.target.id] = x  # `i += 1`: the value is the incoming one plus the operand
+                else:
+                    for y in ast.walk(x.target):
+                        if isinstance(y, ast.Name):
+                            out[y.id] = "opaque"
             elif n.kind == "for-next" and isinstance(x, (ast.For, ast.AsyncFor)):
                 for y in ast.walk(x.target):
                     if isinstance(y, ast.Name):
